@@ -381,6 +381,9 @@ def main(tier, replay=None, rep=None, prop=PROP, cases=None):
         # tactic 1's row selection and its soundness together with the reduction step, spec/Kaykobad.tla
         n_kk, _ = drift_tier(PROP, "tactic-1", lambda: __import__("kkdrv").conformance(rep, rd, PROP, tier))
         n_disp += n_kk
+        # tactic 5's row selection around its one LP call, for every active set the solver may report, spec/Tlp.tla
+        n_tlp, _ = drift_tier(PROP, "tactic-5", lambda: __import__("tlpdrv").conformance(rep, rd, PROP, tier))
+        n_disp += n_tlp
     shutil.rmtree(rd, ignore_errors=True)
     if collect:
         return {"evaluations": n_ev, "nontrivial": nontrivial, "traces": len(traces), "verdict_counts": counts}
